@@ -34,6 +34,37 @@ pub enum Pos {
     Statement,
     /// initialiser of a local variable (parsed with an operator table of its own)
     LocalInit,
+    /// `v = (zzq << 8) - E` and its relatives: the low byte of the 16-bit operation folds, the
+    /// high byte is computed at run time (the carry between the two is known to the folder only)
+    Mixed { k: u8, form: u8 },
+}
+
+impl Pos {
+    fn label(&self) -> String {
+        match self {
+            Pos::Mixed { form, .. } => format!("Mixed{}", ["(q<<8)-E", "(q<<8)+E", "E-(q<<8)", "E+(q<<8)"][(*form & 3) as usize]),
+            p => format!("{:?}", p),
+        }
+    }
+}
+
+/// text and value of the constant operand of a mixed statement
+fn mixed_operand(t: &str, form: u8) -> String {
+    if form & 4 != 0 {
+        format!("(({}) & 65280)", t)
+    } else {
+        format!("({})", t)
+    }
+}
+fn mixed_value(ve: i64, k: u8, form: u8) -> i64 {
+    let c = if form & 4 != 0 { ve & 0xff00 } else { ve };
+    let s = (k as i64) << 8;
+    match form & 3 {
+        0 => s - c,
+        1 => s + c,
+        2 => c - s,
+        _ => c + s,
+    }
 }
 
 #[derive(Debug, Clone, Serialize, Deserialize)]
@@ -427,8 +458,19 @@ pub fn gen_case(g: &mut G, ex: &Excl) -> Case {
         9 | 10 => Pos::LocalInit,
         _ => Pos::Statement,
     };
+    // (decided by a hash of what is already generated: no further draw, the other cases stay the same)
+    let pos = if pos == Pos::Statement {
+        let h = pbt::hash_str(&print(&e, 0));
+        if h % 2 == 0 {
+            Pos::Mixed { k: (h >> 8) as u8, form: ((h >> 16) % 8) as u8 }
+        } else {
+            pos
+        }
+    } else {
+        pos
+    };
     let mut e = e;
-    if pos == Pos::Statement || pos == Pos::LocalInit {
+    if pos == Pos::Statement || pos == Pos::LocalInit || matches!(pos, Pos::Mixed { .. }) {
         element_sizeofs(g, &mut e);
     }
     Case { e, pos }
@@ -524,6 +566,41 @@ pub fn source(case: &Case) -> String {
         Pos::AsmSize => format!("{}void f() {{ asm(\"nop\", {}); }}\nvoid main() {{ f(); }}\n", pre, t),
         Pos::Statement => format!("{}short v;\nvoid main() {{ v = {}; }}\n", pre, t),
         Pos::LocalInit => format!("{}short v;\nvoid main() {{ short w = {}; v = w; }}\n", pre, t),
+        Pos::Mixed { k, form } => {
+            let c = mixed_operand(&t, form);
+            let x = match form & 3 {
+                0 => format!("(zzq << 8) - {}", c),
+                1 => format!("(zzq << 8) + {}", c),
+                2 => format!("{} - (zzq << 8)", c),
+                _ => format!("{} + (zzq << 8)", c),
+            };
+            format!("{}short v;\nchar zzq;\nvoid main() {{ zzq = {}; v = {}; }}\n", pre, k, x)
+        }
+    }
+}
+
+fn contains_logical(e: &CE) -> bool {
+    match e {
+        CE::Bin(op, a, b) => op == "&&" || op == "||" || contains_logical(a) || contains_logical(b),
+        CE::Tern(c, a, b) => contains_logical(c) || contains_logical(a) || contains_logical(b),
+        // `!` of a literal is folded by the parser of the statement; of anything else it is a condition
+        CE::LNot(a) => !matches!(strip_parens(a), CE::Lit(..)) || contains_logical(a),
+        CE::BNot(a) | CE::Neg(a) | CE::Paren(a) => contains_logical(a),
+        _ => false,
+    }
+}
+fn strip_parens(e: &CE) -> &CE {
+    match e {
+        CE::Paren(a) => strip_parens(a),
+        x => x,
+    }
+}
+fn contains_ternary(e: &CE) -> bool {
+    match e {
+        CE::Tern(..) => true,
+        CE::Bin(_, a, b) => contains_ternary(a) || contains_ternary(b),
+        CE::BNot(a) | CE::Neg(a) | CE::LNot(a) | CE::Paren(a) => contains_ternary(a),
+        _ => false,
     }
 }
 
@@ -563,9 +640,21 @@ pub fn excluded(e: &CE, ex: &Excl) -> Option<&'static str> {
 /// known panic signatures (constant folding overflow etc.) are findings keyed by signature
 pub fn check(case: &Case, st: &mut Stats, ex: &Excl, known_panics: &[String]) -> Result<(), String> {
     st.count("expressions");
-    st.count(&format!("position:{:?}", case.pos));
+    st.count(&format!("position:{}", case.pos.label()));
     if let Some(rule) = excluded(&case.e, ex) {
         st.count(&format!("excluded:{}", rule));
+        return Ok(());
+    }
+    // open finding: `&&` and `||` generate code even for constant operands, and the value they
+    // leave (0 or 1) is added to the high byte of an enclosing 16-bit run-time operation too
+    if matches!(case.pos, Pos::Mixed { .. }) && ex.has("logical_in_mixed16") && contains_logical(&case.e) {
+        st.count("excluded:logical_in_mixed16");
+        return Ok(());
+    }
+    // open finding: `?:` generates code even for a constant condition; as the right operand of a
+    // 16-bit run-time operation (under a shift) the left operand is pushed and never used
+    if matches!(case.pos, Pos::Mixed { .. }) && ex.has("ternary_in_mixed16") && contains_ternary(&case.e) {
+        st.count("excluded:ternary_in_mixed16");
         return Ok(());
     }
     let src = source(case);
@@ -601,7 +690,7 @@ pub fn check(case: &Case, st: &mut Stats, ex: &Excl, known_panics: &[String]) ->
                 Pos::ArraySize => *v <= 0 || *v > 256,
                 Pos::Aligned => *v <= 0,
                 Pos::AsmSize => *v < 0,
-                Pos::Statement | Pos::LocalInit => true, // the run-time generator may call a form too complex
+                Pos::Statement | Pos::LocalInit | Pos::Mixed { .. } => true, // the run-time generator may call a form too complex
                 _ => false,
             };
             if ok_reject {
@@ -641,7 +730,7 @@ pub fn check(case: &Case, st: &mut Stats, ex: &Excl, known_panics: &[String]) ->
                         cap.funcs.iter().find(|f| f.name == "f").map(|f| f.size_bytes as i64)
                     }
                 }
-                Pos::Statement | Pos::LocalInit => {
+                Pos::Statement | Pos::LocalInit | Pos::Mixed { .. } => {
                     // run the folded code
                     match exec::link(cap, "4K", 0, exec::Which::InUse) {
                         Ok(img) => {
@@ -654,6 +743,7 @@ pub fn check(case: &Case, st: &mut Stats, ex: &Excl, known_panics: &[String]) ->
             };
             let expect = match case.pos {
                 Pos::Statement | Pos::LocalInit => (*v as i16) as i64, // converted to the 16-bit destination
+                Pos::Mixed { k, form } => (mixed_value(*v, k, form) as i16) as i64,
                 _ => *v,
             };
             match observed {
@@ -677,7 +767,7 @@ pub fn check(case: &Case, st: &mut Stats, ex: &Excl, known_panics: &[String]) ->
                             o
                         ));
                     }
-                    if has_two_prec_levels(&case.e) {
+                    if has_two_prec_levels(&case.e) || matches!(case.pos, Pos::Mixed { .. }) {
                         st.nontrivial(pbt::hash_str(&src));
                         st.sample(3, || json!({"source": src, "c_value": v, "observed": o}));
                     }
